@@ -78,8 +78,10 @@ def instantiate_type(
         # Create a copy of the instantiation so we can modify it.
         instantiation = deepcopy(instantiations[scoped_idx])
         # Replace the part of the template with the instantiation
-        instantiation.name = str_arg_typename.replace(scoped_template,
-                                                      instantiation.name)
+        # (whole `::`-separated components only, `T::Type` must not become `XXype`).
+        instantiation.name = "::".join(
+            instantiation.name if part == scoped_template else part
+            for part in str_arg_typename.split("::"))
         return parser.Type(
             typename=instantiation,
             is_const=ctype.is_const,
